@@ -235,6 +235,10 @@ func init() {
 		seed{Prop: "C10", Name: "learned-clause-skips-level-1-literals", File: "solver/learn.go",
 			Old: "\t\tif s.litStatus(l) != Unsat {\n\t\t\t// In clauses where cardinality > 1, some lits might be true in the conflict clause: ignore them\n\t\t\tcontinue\n\t\t}\n\t\tmet[v] = true",
 			New: "\t\tif s.litStatus(l) != Unsat || abs(s.model[v]) == 1 {\n\t\t\tcontinue\n\t\t}\n\t\tmet[v] = true", Expect: "R10.6"},
+		seed{Prop: "C10", Name: "assumptions-validated-in-a-separate-loop", File: "solver/solver.go",
+			Old: "\t\t\ts.status = Unsat\n\t\t\treturn s.status\n\t\t}\n\t\ts.addLearnedUnit(lit)\n", New: "\t\t\ts.status = Unsat\n\t\t\treturn s.status\n\t\t}\n\t}\n\tfor _, lit := range lits {\n\t\ts.addLearnedUnit(lit)\n", Expect: "R10.3", Note: "external mutant C10-r3-m1"},
+		seed{Prop: "C10", Name: "assumption-test-dropped", File: "solver/solver.go",
+			Old: "\t\tif s.litStatus(lit) == Unsat { // lit contradicts a fact or a previous assumption\n\t\t\ts.status = Unsat\n\t\t\treturn s.status\n\t\t}\n", New: "", Expect: "R10.3"},
 		seed{Prop: "C10", Name: "benign-reinstall-classic-loop", File: "solver/solver.go",
 			Old: "\tfor _, lit := range s.facts { // Unit clauses are not assumptions: they hold in every round\n", New: "\tfor i := 0; i < len(s.facts); i++ {\n\t\tlit := s.facts[i]\n", Expect: ""},
 	)
